@@ -255,6 +255,9 @@ def restrict(thorough, cfg, devs, p, k):
     if k == 2 and devs[0][2][0] == "restart" and p[2][0] in ("stop", "restart") and len(cfg["watched"]) == 1 \
             and cfg["reps"] in (1, 3) and cfg["frac"] == 0.0:
         return True  # a restart, then a stop or another restart: the first restart must not leave anything behind
+    if k == 2 and devs[0][2][0] == "offer" and p[2][0] == "restart" and len(cfg["watched"]) <= 2 \
+            and cfg["reps"] in (1, 3) and cfg["frac"] == 0.0 and (thorough or p[1] == "pre"):
+        return True  # an offer, then a restart: what was learnt before the stop is still known afterwards
     if not thorough and (p[2][0] in K1_ONLY or any(d[2][0] in K1_ONLY for d in devs)):
         return False  # quick tier: two-entry messages and restarts as single disturbances only
     if reoffer_triple(cfg, devs, p, k):
